@@ -2253,4 +2253,227 @@ Section Quot.
     2: intros x y; apply tidx_inj. 2: apply rq_rows_ok. 2: apply rq_x0. 2: apply rq_fin_incl.
     apply rq_graph_lang.
   Qed.
+
+  (* ---------------- left quotient ---------------- *)
+  Let x0L : triple := (iA, iB, false).
+  Let rowL := lq_rowof ea eb syms x0L.
+  Let EL := xedge rowL.
+
+  Lemma lq_edge_T qa qb a y :
+    EL (qa, qb, true) a y <-> exists s t, a = Some s /\ EA qa (Some s) t /\ y = (t, qb, true).
+  Proof.
+    unfold EL, xedge, rowL, lq_rowof. simpl. split.
+    - intros [r [Er Hy]]. injection Er as <-. apply tab_tg in Hy. destruct Hy as [_ Hy].
+      apply in_map_iff in Hy. destruct Hy as [t [<- Ht]]. apply (erow_tg A ea Hea) in Ht.
+      destruct a as [s|]; [|exfalso; eapply elim_no_eps_any; exact Ht]. exists s, t. auto.
+    - intros [s [t [-> [Ht ->]]]]. eexists. split; [reflexivity|]. apply (erow_tg A ea Hea) in Ht.
+      apply tab_tg. split; [eapply xtg_key; exact Ht|]. apply in_map_iff. exists t. auto.
+  Qed.
+
+  Lemma lq_edge_F qa qb a y : In qa (n_states A) ->
+    (EL (qa, qb, false) a y <->
+     a = None /\ ((exists ta tb, jstep qa qb ta tb /\ y = (ta, tb, false)) \/
+                  (In qb (e_finals eb) /\ y = (qa, qb, true)))).
+  Proof.
+    intro Hqa. unfold EL, xedge, rowL, lq_rowof. simpl. split.
+    - intros [r [Er Hy]].
+      destruct (nonempty (joint_keys (erow ea qa) (erow eb qb) syms) || memb qb (e_finals eb)) eqn:Ec.
+      + injection Er as <-. unfold xtg in Hy. destruct a as [s|]; simpl in Hy; [destruct Hy|].
+        split; [reflexivity|]. apply in_app_or in Hy. destruct Hy as [Hy|Hy].
+        * left. apply in_map_iff in Hy. destruct Hy as [[ta tb] [<- Hp]]. exists ta, tb.
+          split; [apply joint_In; assumption|reflexivity].
+        * right. destruct (memb qb (e_finals eb)) eqn:Ef; [|destruct Hy]. destruct Hy as [<-|[]].
+          split; [apply memb_In; exact Ef|reflexivity].
+      + destruct (eqb_ppb (qa, qb, false) x0L); [|discriminate]. injection Er as <-.
+        unfold xtg in Hy. simpl in Hy. destruct Hy.
+    - intros [-> [[ta [tb [Hs ->]]]|[Hf ->]]].
+      + apply (joint_In qa qb ta tb Hqa) in Hs. pose proof (joint_keys_nonempty _ _ _ _ Hs) as Hne.
+        destruct (joint_keys (erow ea qa) (erow eb qb) syms) as [|k ks] eqn:Ek; [congruence|]. simpl.
+        eexists. split; [reflexivity|]. unfold xtg. simpl. apply in_or_app. left.
+        apply in_map_iff. exists (ta, tb). auto.
+      + apply memb_In in Hf. rewrite Hf. rewrite orb_true_r.
+        eexists. split; [reflexivity|]. unfold xtg. simpl. apply in_or_app. right. left. reflexivity.
+  Qed.
+
+  Lemma lq_T_path x w y : gpath EL x w y -> snd x = true ->
+    snd y = true /\ snd (fst y) = snd (fst x) /\ gpath EA (fst (fst x)) w (fst (fst y)).
+  Proof.
+    intro H. induction H as [x|x y1 z w He Hp IH|x a y1 z w He Hp IH]; intro Hx.
+    - split; [exact Hx|]. split; [reflexivity|apply gp_refl].
+    - destruct x as [[qa qb] fl]. simpl in *. subst fl. apply lq_edge_T in He.
+      destruct He as [s [t [E _]]]. discriminate.
+    - destruct x as [[qa qb] fl]. simpl in *. subst fl. apply lq_edge_T in He.
+      destruct He as [s [t [E [Ht ->]]]]. inversion E; subst s.
+      destruct (IH eq_refl) as [H1 [H2 H3]]. simpl in *. split; [exact H1|]. split; [exact H2|].
+      eapply gp_sym; eassumption.
+  Qed.
+
+  Lemma lq_T_complete qa w fa qb : gpath EA qa w fa -> gpath EL (qa, qb, true) w (fa, qb, true).
+  Proof.
+    intro H. induction H as [q|q q1 q' w He Hp IH|q s q1 q' w He Hp IH].
+    - apply gp_refl.
+    - exfalso. eapply elim_no_eps_any. exact He.
+    - eapply gp_sym; [|exact IH]. apply lq_edge_T. exists s, q1. auto.
+  Qed.
+
+  Lemma lq_F_path x w y : gpath EL x w y -> snd x = false -> snd y = true ->
+    In (fst (fst x)) (n_states A) -> In (snd (fst x)) (n_states B) ->
+    exists qa qb, jpath (fst x) (qa, qb) /\ In qb (e_finals eb) /\ snd (fst y) = qb /\
+                  gpath EA qa w (fst (fst y)).
+  Proof.
+    intro H. induction H as [x|x y1 z w He Hp IH|x a y1 z w He Hp IH]; intros Hx Hy Ha Hb.
+    - congruence.
+    - destruct x as [[qa qb] fl]. simpl in *. subst fl. apply lq_edge_F in He; [|exact Ha].
+      destruct He as [_ [[ta [tb [Hs ->]]]|[Hf ->]]].
+      + destruct (jstep_in _ _ _ _ Ha Hb Hs) as [Ha' Hb'].
+        destruct (IH eq_refl Hy Ha' Hb') as [qa' [qb' [H1 H2]]]. exists qa', qb'.
+        split; [eapply jp_step; eassumption|exact H2].
+      + destruct (lq_T_path _ _ _ Hp eq_refl) as [_ [H2 H3]]. simpl in *.
+        exists qa, qb. split; [apply jp_refl|]. auto.
+    - destruct x as [[qa qb] fl]. simpl in *. subst fl. apply lq_edge_F in He; [|exact Ha].
+      destruct He as [E _]. discriminate.
+  Qed.
+
+  Lemma lq_F_complete x y : jpath x y -> In (fst x) (n_states A) -> In (snd x) (n_states B) ->
+    gpath EL (x, false) [] (y, false).
+  Proof.
+    intro H. induction H as [x|qa qb ta tb y Hs Hp IH]; intros Ha Hb; [apply gp_refl|]. simpl in *.
+    destruct (jstep_in _ _ _ _ Ha Hb Hs) as [Ha' Hb'].
+    eapply gp_eps; [|apply IH; assumption]. apply lq_edge_F; [exact Ha|]. split; [reflexivity|]. left. exists ta, tb. auto.
+  Qed.
+
+  Lemma lq_graph_lang w :
+    (exists y, gpath EL x0L w y /\ In y finQ) <-> l_lquot (L_nfa A) (L_nfa B) w.
+  Proof.
+    unfold l_lquot. split.
+    - intros [y [Hp Hy]]. apply finQ_In in Hy. destruct Hy as [Hy [Fa Fb]].
+      destruct (lq_F_path _ _ _ Hp eq_refl Hy iA_in iB_in) as [qa [qb [H1 [H2 [H3 H4]]]]].
+      apply jpath_word in H1. destruct H1 as [u [H5 H6]]. simpl in H5, H6. exists u. split.
+      + apply (elim_lang B HvB eb Heb). exists qb. auto.
+      + apply (elim_lang A HvA ea Hea). exists (fst (fst y)). split; [|exact Fa]. eapply gpath_app; eassumption.
+    - intros [u [HB HA]]. apply (elim_lang B HvB eb Heb) in HB. apply (elim_lang A HvA ea Hea) in HA.
+      destruct HB as [fb [Hb Fb]]. destruct HA as [fa [Ha Fa]].
+      apply gpath_app_inv in Ha. destruct Ha as [q' [H1 H2]].
+      exists (fa, fb, true). split; [|apply finQ_In; simpl; auto].
+      change w with ([] ++ w). eapply gpath_app.
+      + apply (lq_F_complete (iA, iB) (q', fb)); [eapply word_jpath; eassumption|exact iA_in|exact iB_in].
+      + eapply gp_eps; [|apply lq_T_complete; exact H2]. apply lq_edge_F.
+        * destruct (elim_path_sound A HvA _ _ _ H1 iA_in) as [_ H]. exact H.
+        * split; [reflexivity|]. right. auto.
+  Qed.
+
+  Let xsL := lq_xs ea eb.
+
+  Lemma lq_xs_In x : In x xsL <->
+    (snd x = false /\ In (fst (fst x)) (e_states ea) /\ In (snd (fst x)) (e_states eb)) \/
+    (snd x = true /\ In (fst (fst x)) (e_states ea) /\ In (snd (fst x)) (e_finals eb)).
+  Proof.
+    unfold xsL, lq_xs. rewrite in_app_iff, !in_map_iff. split.
+    - intros [[[p1 p2] [<- Hp]]|[[p1 p2] [<- Hp]]]; apply in_prod_iff in Hp; simpl; tauto.
+    - destruct x as [[x1 x2] fl]. simpl. intros [[-> [H1 H2]]|[-> [H1 H2]]]; [left|right];
+        (exists (x1, x2); split; [reflexivity|apply in_prod_iff; auto]).
+  Qed.
+
+  Lemma eb_finals_NoDup : NoDup (e_finals eb).
+  Proof.
+    destruct (elim_parts_inv B eb Heb) as [_ [_ Hf]]. rewrite Hf. apply NoDup_filter. apply (es_NoDup B eb Heb).
+  Qed.
+
+  Lemma lq_xs_NoDup : NoDup xsL.
+  Proof.
+    unfold xsL, lq_xs. apply NoDup_app_intro.
+    - apply NoDup_map_on; [apply NoDup_list_prod; [apply (es_NoDup A ea Hea)|apply (es_NoDup B eb Heb)]|].
+      intros x y _ _ E. inversion E. reflexivity.
+    - apply NoDup_map_on; [apply NoDup_list_prod; [apply (es_NoDup A ea Hea)|apply eb_finals_NoDup]|].
+      intros x y _ _ E. inversion E. reflexivity.
+    - intros x H1 H2. apply in_map_iff in H1. apply in_map_iff in H2.
+      destruct H1 as [q [<- _]]. destruct H2 as [p [E _]]. discriminate.
+  Qed.
+
+  Lemma lq_rows_ok : rows_ok xsL syms rowL.
+  Proof.
+    intros [[qa qb] fl] r Hx Er a l Hal. apply lq_xs_In in Hx. simpl in Hx.
+    destruct Hx as [[-> [Hqa Hqb]]|[-> [Hqa Hqb]]]; pose proof (es_in_states A HvA ea Hea _ Hqa) as HqA;
+      unfold rowL, lq_rowof in Er; simpl in Er.
+    - destruct (nonempty (joint_keys (erow ea qa) (erow eb qb) syms) || memb qb (e_finals eb)).
+      + injection Er as <-. destruct Hal as [Hal|[]]. injection Hal as <- <-. split; [reflexivity|].
+        intros y Hy. apply in_app_or in Hy. apply lq_xs_In. destruct Hy as [Hy|Hy].
+        * apply in_map_iff in Hy. destruct Hy as [[ta tb] [<- Hp]].
+          apply (joint_In qa qb ta tb HqA) in Hp. destruct Hp as [s [H1 H2]]. left. simpl. split; [reflexivity|].
+          split; [eapply (es_closed A ea Hea); eassumption|eapply (es_closed B eb Heb); eassumption].
+        * destruct (memb qb (e_finals eb)) eqn:Ef; [|destruct Hy]. destruct Hy as [<-|[]].
+          right. simpl. split; [reflexivity|]. split; [exact Hqa|apply memb_In; exact Ef].
+      + destruct (eqb_ppb (qa, qb, false) x0L); [|discriminate]. injection Er as <-. destruct Hal.
+    - injection Er as <-. pose proof (tab_entry _ _ _ _ Hal) as [Hk ->]. split.
+      + destruct (erow_key_sym A HvA ea Hea qa a HqA Hk) as [s [-> Hs]]. apply usyms_l. simpl. apply memb_In. exact Hs.
+      + intros y Hy. apply in_map_iff in Hy. destruct Hy as [t [<- Ht]]. apply (erow_tg A ea Hea) in Ht.
+        apply lq_xs_In. right. simpl. split; [reflexivity|]. split; [eapply (es_closed A ea Hea); eassumption|exact Hqb].
+  Qed.
+
+  Lemma lq_x0 : In x0L xsL.
+  Proof.
+    apply lq_xs_In. left. simpl. split; [reflexivity|]. split; [apply (es_init A ea Hea)|apply (es_init B eb Heb)].
+  Qed.
+
+  Lemma lq_fin_incl : incl finQ xsL.
+  Proof.
+    intros y Hy. apply finQ_In in Hy. destruct Hy as [H1 [H2 H3]]. apply lq_xs_In. right.
+    apply (es_finals A HvA ea Hea) in H2. tauto.
+  Qed.
+
+  Lemma lq_pre_valid : valid_nfa (lq_pre A B ea eb) = true.
+  Proof.
+    unfold lq_pre. apply asm_valid.
+    - intros x y. apply tidx_inj.
+    - apply lq_rows_ok.
+    - apply lq_x0.
+    - apply lq_fin_incl.
+    - apply lq_xs_NoDup.
+    - apply usyms_NoDup.
+    - left. unfold lq_rowof. simpl.
+      destruct (nonempty (joint_keys (erow ea (n_init A)) (erow eb (n_init B)) (usyms A B)) || memb (n_init B) (e_finals eb));
+        [discriminate|].
+      rewrite (eqb_ok_refl _ eqb_ppb_ok). discriminate.
+  Qed.
+
+  Lemma lq_pre_lang : L_nfa (lq_pre A B ea eb) =L l_lquot (L_nfa A) (L_nfa B).
+  Proof.
+    intro w. unfold lq_pre. rewrite asm_lang.
+    2: intros x y; apply tidx_inj. 2: apply lq_rows_ok. 2: apply lq_x0. 2: apply lq_fin_incl.
+    apply lq_graph_lang.
+  Qed.
 End Quot.
+
+Section QuotThms.
+  Variables A B : nfa.
+  Hypothesis HvA : valid_nfa A = true.
+  Hypothesis HvB : valid_nfa B = true.
+
+  Theorem ops_rquot_total : exists R, nfa_right_quotient A B = Ok R /\ valid_nfa R = true.
+  Proof.
+    destruct (elim_parts_some A HvA) as [ea Hea]. destruct (elim_parts_some B HvB) as [eb Heb].
+    exists (rq_pre A B ea eb). split; [|apply rq_pre_valid; assumption].
+    unfold nfa_right_quotient. rewrite Hea, Heb. simpl. apply check_nfa_ok. apply rq_pre_valid; assumption.
+  Qed.
+
+  Theorem ops_rquot_lang R : nfa_right_quotient A B = Ok R -> L_nfa R =L l_rquot (L_nfa A) (L_nfa B).
+  Proof.
+    unfold nfa_right_quotient. destruct (elim_parts A) as [ea|] eqn:Hea; [|discriminate].
+    destruct (elim_parts B) as [eb|] eqn:Heb; [|discriminate]. simpl.
+    intro H. apply check_nfa_inv in H. destruct H as [-> _]. apply rq_pre_lang; assumption.
+  Qed.
+
+  Theorem ops_lquot_total : exists R, nfa_left_quotient A B = Ok R /\ valid_nfa R = true.
+  Proof.
+    destruct (elim_parts_some A HvA) as [ea Hea]. destruct (elim_parts_some B HvB) as [eb Heb].
+    exists (lq_pre A B ea eb). split; [|apply lq_pre_valid; assumption].
+    unfold nfa_left_quotient. rewrite Hea, Heb. simpl. apply check_nfa_ok. apply lq_pre_valid; assumption.
+  Qed.
+
+  Theorem ops_lquot_lang R : nfa_left_quotient A B = Ok R -> L_nfa R =L l_lquot (L_nfa A) (L_nfa B).
+  Proof.
+    unfold nfa_left_quotient. destruct (elim_parts A) as [ea|] eqn:Hea; [|discriminate].
+    destruct (elim_parts B) as [eb|] eqn:Heb; [|discriminate]. simpl.
+    intro H. apply check_nfa_inv in H. destruct H as [-> _]. apply lq_pre_lang; assumption.
+  Qed.
+End QuotThms.
